@@ -4,6 +4,7 @@ package main
 // and an SMT-LIB2 printer.  Sorts are plain strings in SMT-LIB syntax.
 
 import (
+	"sync/atomic"
 	"fmt"
 	"math/big"
 	"sort"
@@ -64,7 +65,7 @@ type Term struct {
 	// quantifier
 	Bound []*Term // bound variables (symbols) for forall/exists
 	Pats  [][]*Term
-	str   string
+	str   atomic.Pointer[string] // cached rendering (terms are shared between solver goroutines)
 }
 
 var (
@@ -99,18 +100,19 @@ func App(op string, s Sort, args ...*Term) *Term {
 }
 
 func (t *Term) String() string {
-	if t.str != "" {
-		return t.str
+	if p := t.str.Load(); p != nil {
+		return *p
 	}
 	var sb strings.Builder
 	t.write(&sb)
-	t.str = sb.String()
-	return t.str
+	r := sb.String()
+	t.str.Store(&r)
+	return r
 }
 
 func (t *Term) write(sb *strings.Builder) {
-	if t.str != "" {
-		sb.WriteString(t.str)
+	if p := t.str.Load(); p != nil {
+		sb.WriteString(*p)
 		return
 	}
 	if t.IntVal != nil {
